@@ -1,5 +1,5 @@
 # lib/time-core.c
-TU('time-core', 'lib/time-core.c', LIB_CFLAGS, pre=['spec/greg.h'], post=['contracts/time-core.contracts.h'],
+TU('time-core', 'lib/time-core.c', LIB_CFLAGS, defs=['VERIF_TU_TIME_CORE 1'], pre=['spec/greg.h'], post=['contracts/time-core.contracts.h'],
    native_link=['lib/strops.c', 'lib/token.c', 'lib/dt-locale.c', 'lib/dt-core.c', 'lib/date-core.c', 'lib/leaps.c', 'lib/tzraw.c', 'lib/dt-core-tz-glue.c'])
 TP = ['C11', 'C08', 'C14', 'C15', 'C16', 'C05']
 T_IN = [('unsigned', 'in_h'), ('unsigned', 'in_m'), ('unsigned', 'in_s'), ('unsigned', 'in_ns')]
